@@ -74,16 +74,16 @@ def _verify_one(args):
         src = _SRC_CACHE[srcroot]
         r = engine.verify_function(src, qual, family, variant)
         obs = []
-        cvc_ms = 20000 if tier == "quick" else 120000
+        cvc_ms = 10000 if tier == "quick" else 120000
         # group by path (identical hypothesis list) -> one incremental solver per path
         groups: dict = {}
         for ob in r["obligations"]:
             groups.setdefault(tuple(h.get_id() if hasattr(h, "get_id") else hash(h) for h in ob.hyps), []).append(ob)
-        budget = {"cvc5": 4 if tier == "quick" else 40}  # open obligations that get the slow second opinion
+        budget = {"cvc5": 1 if tier == "quick" else 40}  # open obligations that get the slow second opinion
 
         for g in groups.values():
             solve.discharge_group(g, use_cvc5=budget, cvc5_ms=cvc_ms)
-        fmf_left = 2 if tier == "quick" else 20
+        fmf_left = 1 if tier == "quick" else 20
         for ob in r["obligations"]:
             sample = None
             if ob.kind == "ensures" and ob.status == "proved" and not obs_has_sample(obs):
@@ -95,7 +95,7 @@ def _verify_one(args):
             if ob.status != "proved" and ob.kind != "must_fail" and os.environ.get("PYVC_FMF", "1") == "1" and fmf_left > 0:
                 fmf_left -= 1
                 try:
-                    rr, out = solve.cvc5_refute(ob, 15000 if tier == "quick" else 120000)
+                    rr, out = solve.cvc5_refute(ob, 8000 if tier == "quick" else 120000)
                     refuter = f"cvc5 --finite-model-find: {rr}" + (" | " + " ".join(l.strip() for l in out.split("\n") if "cardinality" in l or "define-fun self" in l)[:600] if rr == "sat" else "")
                 except Exception as e:  # noqa: BLE001
                     refuter = f"refuter error {e}"
